@@ -374,49 +374,73 @@ func (w *World) resolveVia(via, id string, field *ggql.Field, args map[string]in
 }
 
 // ReflSuitable reports whether the case can be realised by reflected methods with the same
-// observable behaviour as the other strategies: a Go method cannot tell an omitted or null
-// argument from a zero value, so fields taking arguments must be given all of them, non-null.
+// observable behaviour as the other strategies. A Go method cannot tell an omitted or null
+// argument from a zero value, so every OPTIONAL argument of a selected field has to be given a
+// value that is not null. Everything else is common ground: a required argument left out (the
+// request is refused before any method runs), variables, list and object values, arguments the
+// field does not declare.
 func ReflSuitable(u *Universe, c *Case) bool {
 	if HasNthFault(c) {
 		return false
 	}
-	var ok func(tn string, sels []Sel) bool
-	declared := func(name string) int {
-		n := -1
-		for _, t := range u.Types {
-			if fd, has := t.Fields[name]; has && len(fd.Args) > n {
-				n = len(fd.Args)
+	// suitable for one type declaring the field: an argument the type does not declare (the field is
+	// refused there) or all its optional arguments given non-null
+	forType := func(defs []ArgDef, s *Sel) bool {
+		given := map[string]Value{}
+		for _, a := range s.Args {
+			given[a.N] = a.V
+		}
+		declared := map[string]bool{}
+		for _, ad := range defs {
+			declared[ad.N] = true
+		}
+		for n := range given {
+			if !declared[n] {
+				return true
 			}
 		}
-		return n
+		for _, ad := range defs {
+			if ad.Type != nil && ad.Type.K == "nonnull" {
+				continue
+			}
+			v, has := given[ad.N]
+			if !has || v.K == "null" {
+				return false
+			}
+			if v.K == "var" {
+				if vv, ok := c.Vars[v.S]; !ok || vv.K == "null" {
+					return false
+				}
+			}
+		}
+		return true
 	}
-	ok = func(tn string, sels []Sel) bool {
-		for _, s := range sels {
+	var ok func(sels []Sel) bool
+	ok = func(sels []Sel) bool {
+		for i := range sels {
+			s := &sels[i]
 			if s.K == "field" {
-				if n := declared(s.Name); n > 0 || len(s.Args) > 0 {
-					if len(s.Args) != n {
-						return false
-					}
-					for _, a := range s.Args {
-						if a.V.K == "null" || a.V.K == "var" || a.V.K == "obj" || a.V.K == "list" {
+				for _, t := range u.Types {
+					if fd, has := t.Fields[s.Name]; has && len(fd.Args) > 0 {
+						if s.RawArgs != "" || !forType(fd.Args, s) {
 							return false
 						}
 					}
 				}
 			}
-			if !ok(tn, s.Sels) {
+			if !ok(s.Sels) {
 				return false
 			}
 		}
 		return true
 	}
 	for _, op := range c.Doc.Ops {
-		if !ok("", op.Sels) {
+		if !ok(op.Sels) {
 			return false
 		}
 	}
 	for _, f := range c.Doc.Frags {
-		if !ok("", f.Sels) {
+		if !ok(f.Sels) {
 			return false
 		}
 	}
